@@ -159,7 +159,7 @@ type Client struct {
 	// OnPacket is called from the reader goroutine for every packet before it is logged.
 	OnPacket func(*mw.Packet)
 	br       *bufio.Reader
-	sentLog  []*mw.Packet
+	sentLog  []SentRec
 	SentRaw  int // bytes written
 	RecvRaw  int // bytes read (sum of Raw lengths)
 	done     chan struct{}
@@ -215,8 +215,21 @@ func (c *Client) Send(p *mw.Packet) error {
 	}
 	c.wmu.Lock()
 	defer c.wmu.Unlock()
-	c.sentLog = append(c.sentLog, p)
+	c.sentLog = append(c.sentLog, SentRec{P: p, N: len(b)})
 	return c.writeLocked(b)
+}
+
+// SentRec is one packet written with Send (its encoded length in N).
+type SentRec struct {
+	P *mw.Packet
+	N int
+}
+
+// Sent returns a copy of everything written with Send (auto-acks included).
+func (c *Client) Sent() []SentRec {
+	c.wmu.Lock()
+	defer c.wmu.Unlock()
+	return append([]SentRec(nil), c.sentLog...)
 }
 
 // SendRaw writes bytes as they are.
